@@ -776,6 +776,23 @@ func (bs *blockState) appendBuiltin(x *ssa.Call) {
 func (bs *blockState) atomicCall(x *ssa.Call, f *ssa.Function) {
 	e := bs.e
 	name := f.Name()
+	// ghost statements can be anchored at the operation (call <Name>#k after): arg_res is the result,
+	// arg_old / arg_new the operands of a compare-and-swap, arg_val the operand of a store / swap / add
+	defer func() {
+		e.callOrd[name]++
+		extra := map[string]Val{}
+		if v, ok := e.regs[x]; ok {
+			extra["res"] = v
+		}
+		args := x.Call.Args
+		switch {
+		case strings.HasPrefix(name, "CompareAndSwap") && len(args) == 3:
+			extra["old"], extra["new"] = bs.val(args[1]), bs.val(args[2])
+		case len(args) == 2:
+			extra["val"] = bs.val(args[1])
+		}
+		bs.ghostAt("call "+name+fmt.Sprintf("#%d", e.callOrd[name])+" after", x, extra)
+	}()
 	switch {
 	case strings.HasPrefix(name, "Load"):
 		v := e.freshVal("atomic."+x.Name(), x.Type())
